@@ -216,7 +216,11 @@ func RunCorrespondence(e *hx.Env, prop string, n int, params GenParams, mon Moni
 	results := make([]res, n)
 	shrunk := map[string]bool{}
 	var wg sync.WaitGroup
-	sem := make(chan struct{}, 48)
+	par := params.Par
+	if par <= 0 {
+		par = 48
+	}
+	sem := make(chan struct{}, par)
 	for i := 0; i < n; i++ {
 		wg.Add(1)
 		sem <- struct{}{}
